@@ -548,6 +548,12 @@ example : ownAttempts 3 [.ret [] (some (.base "x"))] = 4 ∧ ownAttempts 0 [.ret
     ownAttempts 3 [.ret [] (some (.base "x")), .ret [] none] = 2 ∧
     ownAttempts 3 [.ret [] (some (.base "x")), .panic .nil] = 2 ∧ ownAttempts 3 [.ret [] none] = 1 := by decide
 
+/-- the error *value* does not matter to Retry: a handler that reports its per-attempt context's error – plain or wrapped –
+    under `Retry(Timeout(h))` gets Retry's own 1+MaxRetries attempts (the message context is live again after every attempt) -/
+example : (run [.retry 3, .timeout false] scripted (exSt [.ret [] (some (.ctxErr true))])).2.log.length = 4 ∧
+    (run [.retry 2, .timeout true] scripted (exSt [.ret [] (some (.pkgWrap "ctx" (.ctxErr true))), .ret [] (some (.fmtWrap "ctx" (.ctxErr false))), .ret [] none])).2.log.length = 3 ∧
+    ownAttempts 3 [.ret [] (some (.ctxErr true))] = 4 := by decide +kernel
+
 /-- non-vacuity: Retry(Timeout(h)), Timeout(Retry(h)), Retry(Recoverer(Timeout0(h))) with a failing handler make
     1+MaxRetries attempts; Timeout0(Retry(h)) – the excluded arrangement – makes one -/
 example : (run [.retry 3, .timeout false] scripted (exSt [.ret [] (some (.base "x"))])).2.log.length = 4 := by decide +kernel
